@@ -458,6 +458,11 @@ func finish(c *Check, tier string, parts []*Partial, wall time.Duration) int {
 	if len(fresh) == 0 {
 		return 0
 	}
+	kinds := map[string]int{}
+	for _, v := range fresh {
+		kinds[v.Kind]++
+	}
+	fmt.Printf("violation kinds (distinct cases kept): %v\n", kinds)
 	rdir := filepath.Join(VerifDir, "replays", c.ID)
 	os.MkdirAll(rdir, 0o755)
 	for i, v := range fresh {
